@@ -53,6 +53,8 @@ type c10Input struct {
 	ErrHex map[string]string `json:"errhex,omitempty"` // backend key -> last error text (hex) of a backend that is down
 	Reqs   []string          `json:"reqs"`
 	Socket bool              `json:"socket"`
+	// Pipeline: all requests of the socket sequence are written at once (a client which does not wait for the answers)
+	Pipeline bool `json:"pipeline,omitempty"`
 }
 
 func init() {
@@ -506,6 +508,7 @@ func c10GenInput(r *vRand, idx int, tier string, shortCV, rawUTF8 bool, bigDone 
 	big := !socket && idx >= 1 && !*bigDone || (tier == "thorough" && idx%40 == 1)
 	*bigDone = *bigDone || big
 	in := &c10Input{DS: ds, Socket: socket && !big, ErrHex: errHex}
+	in.Pipeline = in.Socket && r.chance(1, 3)
 	in.Inject = c10GenInjects(r, ds, big, rawUTF8, hot, hist)
 	n := 1 + r.intn(6)
 	if !socket {
@@ -1127,7 +1130,7 @@ func (e *c10Emit) sendOne(lmd *Daemon, text string, hist func(string)) (obs *c10
 
 // ---- the sequence over a real unix socket ---------------------------------------------------
 
-func c10SocketRun(lmd *Daemon, idx int, texts []string, obs []*c10Obs, hist func(string)) (stream []byte, closed bool, note string) {
+func c10SocketRun(lmd *Daemon, idx int, texts []string, obs []*c10Obs, pipeline bool, hist func(string)) (stream []byte, closed bool, note string) {
 	listen := filepath.Join(vSockDir(), fmt.Sprintf("%d-c10-%d.sock", os.Getpid(), idx))
 	os.Remove(listen)
 	lmd.waitGroupInit.Add(1)
@@ -1180,7 +1183,22 @@ func c10SocketRun(lmd *Daemon, idx int, texts []string, obs []*c10Obs, hist func
 		return true
 	}
 
+	// pipelining: only sequences of parsable requests (an unparsable one ends the connection with unread input)
+	for i := range texts {
+		if !obs[i].get && (obs[i].sent != nil || i == 0) {
+			pipeline = false
+		}
+	}
+	if pipeline {
+		hist("socket:pipelined")
+		if _, werr := conn.Write([]byte(strings.Join(texts, ""))); werr != nil {
+			return stream, readAll(2 * time.Second), note
+		}
+	}
 	for i, text := range texts {
+		if pipeline {
+			text = ""
+		}
 		if _, werr := conn.Write([]byte(text)); werr != nil {
 			// the daemon has closed: whatever is left to read is read below
 			closed = readAll(2 * time.Second)
@@ -1213,7 +1231,9 @@ func c10SocketRun(lmd *Daemon, idx int, texts []string, obs []*c10Obs, hist func
 			}
 			// no answer to wait for: give the daemon time to read the empty line on its own
 			// (bytes that arrive in the same read as the empty line are dropped, see DESIGN appendix B: no pipelining)
-			time.Sleep(40 * time.Millisecond)
+			if !pipeline {
+				time.Sleep(40 * time.Millisecond)
+			}
 		}
 	}
 	// is the connection still open? the daemon closes right after a non keep-alive answer
@@ -1326,7 +1346,7 @@ func c10RunCase(idx int, in *c10Input, hist func(string)) (coq string, nontrivia
 	}
 	sock := "None"
 	if in.Socket {
-		stream, closed, note := c10SocketRun(lmd, idx, in.Reqs, obs, hist)
+		stream, closed, note := c10SocketRun(lmd, idx, in.Reqs, obs, in.Pipeline, hist)
 		if note != "" {
 			hist(fmt.Sprintf("socket-note: case %d: %s (read %d bytes)", idx, note, len(stream)))
 		}
